@@ -21,6 +21,13 @@ def _hname(h):
     return "".join(h)
 
 
+def _vterm(cx, val, R):
+    """z3 term of a data value; +inf is represented by a term above the last edge (every comparison with an edge agrees)."""
+    if isinstance(val, float) and val == float("inf"):
+        return R[-1] + 1
+    return cx.t(val)
+
+
 def _chunks(hist):
     pos, out = 0, []
     for c in hist:
@@ -50,6 +57,10 @@ class C03Fill1D(Harness):
                         continue
                     yield (f"1d-K{K}-M{M}-{_hname(hist)}-w{wk}-k{int(keep)}-g{int(gap)}",
                            dict(K=K, M=M, hist=hist, weights=wk, keep_missed=keep, gap=gap, has_n=any(c[0] == "n" for c in hist)))
+        # an infinite value (not NaN: it is overflow, with its weight) as the last of K=2 values, in every call structure
+        for hist in HIST[2]:
+            for wk in ("none", "real"):
+                yield (f"1d-K2-M2-{_hname(hist)}-w{wk}-k1-g0-inf", dict(K=2, M=2, hist=hist, weights=wk, keep_missed=True, gap=False, has_n=any(c[0] == "n" for c in hist), inf=1))
 
     def declare(self, cx, p):
         K, M = p["K"], p["M"]
@@ -63,11 +74,13 @@ class C03Fill1D(Harness):
             if cx.sym:
                 cx.assume(*[w >= 0 for w in x["w"]])
         x["l"], x["r"] = cx.reals("l", M), cx.reals("r", M)
+        if p.get("inf") is not None:
+            x["v"][p["inf"]] = float("inf")
         if cx.sym:
             L, R = [cx.t(i) for i in x["l"]], [cx.t(i) for i in x["r"]]
             cx.assume(rising_pairs(L, R), tolerance_band(L, R))
             cx.assume(z3.Not(consecutive(L, R)) if p["gap"] else consecutive(L, R))
-            v = [cx.t(i) for i in x["v"]]
+            v = [_vterm(cx, i, R) for i in x["v"]]
             cx.define("outside", z3.Or([z3.Or(v[i] < L[0], v[i] > R[-1]) for i in range(K)]))
             cx.define("below", z3.Or([v[i] < L[0] for i in range(K)]))
             cx.define("above", z3.Or([v[i] > R[-1] for i in range(K)]))
@@ -120,10 +133,10 @@ class C03Fill1D(Harness):
 
     def oracle(self, cx, p, x, obs):
         K, M = p["K"], p["M"]
-        v = [cx.t(i) for i in x["v"]]
-        nan = [cx.isnan(i) for i in x["v"]]
-        w = [cx.t(i) for i in x["w"]] if "w" in x else [z3.IntVal(1)] * K
         L, R = [cx.t(i) for i in x["l"]], [cx.t(i) for i in x["r"]]
+        v = [_vterm(cx, i, R) for i in x["v"]]
+        nan = [z3.BoolVal(False) if isinstance(i, float) else cx.isnan(i) for i in x["v"]]
+        w = [cx.t(i) for i in x["w"]] if "w" in x else [z3.IntVal(1)] * K
         raised = obs.get("raised")
         yield "no_exception", raised is None
         if raised is not None:
@@ -334,3 +347,76 @@ class C03FillND(Harness):
                 yield f"batch_err2[{tag}]", cx.eq(getcell(fin["err2"], idx), cx.t(be))
             if p["keep_missed"]:
                 yield "batch_missed", cx.eq(fin["missed"], cx.t(b["missed"]))
+
+
+@register
+class C03Transformed(Harness):
+    prop = "C03"
+    group = "transformed"
+    bounds_doc = "coordinate-transformed histograms (polar 2x2, cylindrical 1x2x2, spherical 2x1x2 bins, concrete edges) and one symbolic Cartesian point with a symbolic integer weight: fill, fill_n, << and the facade construction leave identical contents / missed, and find_bin names the cell fill incremented (mutual agreement only - the coordinate formulas themselves are C15's)"
+
+    EDGES = {"polar": [[0.0, 1.0, 4.0], [0.0, 3.0, 6.5]], "cylindrical": [[0.0, 4.0], [0.0, 3.0, 6.5], [-2.0, 0.0, 2.0]], "spherical": [[0.0, 1.0, 4.0], [0.0, 3.5], [0.0, 3.0, 6.5]]}
+    CLS = {"polar": "PolarHistogram", "cylindrical": "CylindricalHistogram", "spherical": "SphericalHistogram"}
+
+    def instances(self, tier):
+        for name in self.EDGES:
+            yield f"tr-{name}", dict(cls=name)
+
+    def declare(self, cx, p):
+        d = 2 if p["cls"] == "polar" else 3
+        x = {"p": [cx.real(f"p{'xyz'[k]}") for k in range(d)], "w": cx.pyint("w", 1, 3)}
+        if cx.sym:
+            cx.assume(*[z3.And(cx.t(c) >= -5, cx.t(c) <= 5) for c in x["p"]])
+        return x
+
+    def witness_hints(self, cx, p, x):
+        t = [cx.t(c) for c in x["p"]]
+        nz = [z3.And([t[j] == 0 for j in range(len(t)) if j != i] + [z3.ToReal(z3.ToInt(t[i] * 4)) == t[i] * 4]) for i in range(len(t))]
+        return [("uf_exact", [z3.Or(nz)])]
+
+    def drive(self, E, p, x):
+        np = E.np
+        sp = E.mod("physt.special_histograms")
+        cls = getattr(sp, self.CLS[p["cls"]])
+        bins = [np.asarray(e) for e in self.EDGES[p["cls"]]]
+        pt = list(x["p"])
+
+        def snap(h):
+            return {"freq": h.frequencies.tolist(), "err2": h.errors2.tolist(), "missed": h.missed}
+
+        a, b, c = cls(bins), cls(bins), cls(bins)
+        fb = E.attempt(a.find_bin, np.asarray(pt, dtype=float))
+        r1 = E.attempt(a.fill, np.asarray(pt, dtype=float), x["w"])
+        r2 = E.attempt(b.fill_n, np.asarray([pt], dtype=float), weights=np.asarray([x["w"]]))
+        r3 = E.attempt(lambda: c << np.asarray(pt, dtype=float))
+        obs = {"raised_any": next((r for r in (fb, r1, r2, r3) if isinstance(r, Raised)), None)}
+        if obs["raised_any"] is not None:
+            return obs
+        obs.update(fill=snap(a), fill_n=snap(b), lshift=snap(c), find_bin=fb, fill_ret=r1)
+        return obs
+
+    def oracle(self, cx, p, x, obs):
+        yield "no_exception", obs.get("raised") is None and obs.get("raised_any") is None
+        if obs.get("raised") is not None or obs.get("raised_any") is not None:
+            return
+        w = cx.t(x["w"])
+        flat = lambda a: [c for r in a for c in (flat(r) if isinstance(r, list) else [r])]  # noqa: E731
+        A, B, C = obs["fill"], obs["fill_n"], obs["lshift"]
+        yield "fill_and_fill_n_agree", z3.And([cx.t(u) == cx.t(v) for u, v in zip(flat(A["freq"]) + flat(A["err2"]) + [A["missed"]], flat(B["freq"]) + flat(B["err2"]) + [B["missed"]])])
+        yield "lshift_is_unit_fill", z3.And([cx.t(u) * w == cx.t(v) for u, v in zip(flat(C["freq"]) + [C["missed"]], flat(A["freq"]) + [A["missed"]])])
+        yield "counted_once", zsum([cx.t(u) for u in flat(A["freq"])] + [cx.t(A["missed"])]) == w
+        fb, ret = obs["find_bin"], obs["fill_ret"]
+        fbi = None if fb is None else [cx.concrete_int(i) for i in fb]
+        reti = None if ret is None else [cx.concrete_int(i) for i in ret]
+        yield "find_bin_is_fill_index", fbi == reti
+        if fbi is not None:
+            cell = A["freq"]
+            ok = True
+            for i in fbi:
+                if not isinstance(cell, list) or not 0 <= i < len(cell):
+                    ok = False
+                    break
+                cell = cell[i]
+            yield "indexed_cell_incremented", (cx.t(cell) == w) if ok else False
+        else:
+            yield "missed_incremented", cx.t(A["missed"]) == w
